@@ -628,7 +628,7 @@ func (fv *FV) convert(st *State, in *ssa.Convert) Val {
 }
 
 func (fv *FV) sliceWF(st *State, t string) {
-	st.assume(fmt.Sprintf("(and (<= 0 (soff %s)) (<= 0 (slen %s)) (<= (slen %s) (scap %s)) (<= 0 (sref %s)) (<= (sref %s) %s))", t, t, t, t, t, t, st.alloc))
+	st.assume(fmt.Sprintf("(and (<= 0 (soff %s)) (<= 0 (slen %s)) (<= (slen %s) (scap %s)) (<= 0 (sref %s)) (<= (sref %s) %s) (=> (= (sref %s) 0) (= (scap %s) 0)))", t, t, t, t, t, t, st.alloc, t, t))
 }
 
 // assumeWF adds the well-formedness facts for a value just loaded from
@@ -884,6 +884,7 @@ func (fv *FV) execInstr(st *State, in ssa.Instruction, rest func(*State)) bool {
 		vsort := "(Array " + ks + " " + vs + ")"
 		fv.safety(st, "nil-map-write", fmt.Sprintf("mapupdate@b%d", x.Block().Index), fmt.Sprintf("(not (= %s 0))", m.T))
 		hd, hv := fv.heap(st, dsort), fv.heap(st, vsort)
+		fv.touch(st, vsort, m.T, "mapupdate")
 		fv.setHeap(st, dsort, fmt.Sprintf("(store %s %s (store (select %s %s) %s true))", hd, m.T, hd, m.T, k.T))
 		fv.setHeap(st, vsort, fmt.Sprintf("(store %s %s (store (select %s %s) %s %s))", hv, m.T, hv, m.T, k.T, v.T))
 	case *ssa.MakeClosure:
